@@ -156,21 +156,21 @@ class World:
         for k in ('x_pbAttrErr', 'x_pbValErr', 'x_confVal', 'x_confNone',
                   'x_confRaise', 'x_slots', 'x_provOther', 'x_func',
                   'x_named', 'x_nameonly'):
-            self.names[id(o[k])] = k
+            self.names[id(o[k])] = (k, o[k])
         for k in ('I2twin', 'I2dupmod', 'I1', 'I2', 'I3', 'I4', 'K1', 'K2', 'K3', 'o1', 'o2', 'o3'):
-            self.names[id(o[k])] = k
-        self.names[id(Interface)] = 'Interface'
+            self.names[id(o[k])] = (k, o[k])
+        self.names[id(Interface)] = ('Interface', Interface)
         g1 = AdapterRegistry()
         g2 = AdapterRegistry((g1,))
         g3 = VerifyingAdapterRegistry((g1,))
         self.g = {1: g1, 2: g2, 3: g3}
         for k, r in self.g.items():
-            self.names[id(r)] = 'g%d' % k
+            self.names[id(r)] = ('g%d' % k, r)
         self.v = {'v1': V('v1', 1), 'v2': V('v2', 2), 'v2eq': V('v2eq', 2),
                   'vNoneFactory': V('vNoneFactory', 3, True), 'None': None}
         for k, v in self.v.items():
             if v is not None:
-                self.names[id(v)] = k
+                self.names[id(v)] = (k, v)
         self.saved_hooks = list(zi_interface.adapter_hooks)
         self.renamed = []
 
@@ -209,8 +209,8 @@ class World:
         if isinstance(x, bytes):
             return 'b:' + x.decode('latin1')
         n = self.names.get(id(x))
-        if n is not None:
-            return n
+        if n is not None and n[1] is x:     # ids are reused after collection
+            return n[0]
         if isinstance(x, Result):
             return ['result', self.canon(x.v), [self.canon(a) for a in x.args]]
         if isinstance(x, InterfaceClass):
@@ -417,7 +417,7 @@ class World:
                 c = types.SimpleNamespace()
                 c.__providedBy__ = s
                 objs.append(c)
-                self.names[id(c)] = 'carrier'
+                self.names[id(c)] = ('carrier', c)
             self.keep = objs
             d = self.default(a['default'])
             if op == 'queryAdapterOf':
